@@ -102,6 +102,20 @@ def same(a, b):
     return strip(a) == strip(b)
 
 
+def _diverges(clo):
+    import symex as _sx
+    clo = strip(clo)
+    if clo[0] != 'closure':
+        return False
+    cb = _sx.BODIES.get(clo[1])
+    if cb is None:
+        return False
+    try:
+        return not any(p.end == 'return' for p in _sx.SymEx(cb, max_paths=200).run())
+    except Exception:
+        return False
+
+
 def is_inv_of(t, u):
     """t is (a ref to the payload of) Ring::inv(u)"""
     x = t
@@ -110,8 +124,10 @@ def is_inv_of(t, u):
             x = x[1]
         elif x[0] == 'field' and x[2].endswith('Some.0'):
             x = x[1]
-        elif x[0] == 'call' and x[1].endswith('::unwrap') and len(x[2]) == 1:
+        elif x[0] == 'call' and (x[1].endswith('::unwrap') or x[1].endswith('::expect')) and len(x[2]) >= 1:
             x = x[2][0]
+        elif x[0] == 'call' and x[1].endswith('::unwrap_or_else') and len(x[2]) == 2 and _diverges(x[2][1]):
+            x = x[2][0]      # unwrap_or_else(|| panic!(..)) == unwrap()
         else:
             break
     return x[0] == 'call' and x[1].endswith('Ring::inv') and len(x[2]) == 1 and same(x[2][0], u)
